@@ -310,6 +310,9 @@ def _get_function_insertion_lineno(
 def _get_constant_insertion_lineno(scope: ast.AST) -> int:
     import_types = (ast.Import, ast.ImportFrom)
     imports = [node for node in scope.body if not isinstance(node, import_types)]
+    if not imports:
+        return scope.body[-1].end_lineno  # Nothing but imports: behind the last of them
+
     return min((node.lineno for node in imports)) - 1
 
 
